@@ -41,6 +41,11 @@ def sig_trace(ev, prefix):
 
 
 def what_trace(ev, prefix):
+    if ev.get("ev") == "parse_flat":
+        opens = sum(1 for g in ev["genes"] if g.get("o", 0) > 0)
+        return (f"real translation of a deeply nested genome ({len(ev['genes'])} genes, {opens} block openers in a "
+                f"row) is not Parse(genome): last genes {json.dumps(ev['genes'][-8:])}, last tokens of the real "
+                f"program {json.dumps(ev['tokens'][-14:])}")
     return (f"real translation of a {len(ev['genes'])}-gene genome is not Parse(genome): "
             f"genes={json.dumps(ev['genes'])[:600]} prog={json.dumps(ev['prog'])[:600]}")
 
@@ -84,8 +89,9 @@ def run(ck):
     ck.cov["conformance"].update({"replay_cases": summ["cases"], "replay_mismatches": summ["mismatches"],
                                   "num_opens_rows": len(rows),
                                   "max_nesting_in_random_genomes": max(
-                                      (shape(e["prog"]).count("[") for e in first), default=0)})
-    ck.cov["samples"] = res.case_samples[:2] + [{"genes": first[0]["genes"][:12], "prog_shape": shape(first[0]["prog"])}]
+                                      (shape(e["prog"]).count("[") for e in first if "prog" in e), default=0),
+                                  "deeply_nested_genomes": sum(1 for e in first if e["ev"] == "parse_flat")})
+    ck.cov["samples"] = res.case_samples[:2] + [{"genes": e["genes"][:12], "prog_shape": shape(e["prog"])} for e in first if "prog" in e][:1]
     ck.cov["checker_cmd"] = "tlc MC_Plushy; vh plushy-replay; vh num-opens; vh plushy-trace + tlc Trace_Plushy"
     ck.assumptions += ["instructions that open one block are told apart only by variant (three exist)"]
 
